@@ -57,7 +57,8 @@ def nested_unreached_roots_check(ctx, n, prop):
         conts = [treegen.content(rng.next(), size) for _ in range(3)]
         ign_name = rng.choice([".gitignore", ".fdignore"])
         # a sibling input path whose name is NOT valid UTF-8 in half of the trees (a Latin-1 name: byte 0xE9)
-        oname = "other" if rng.chance(1, 2) else "oth\udce9r-latin1"
+        # ... or ends in white space (a line of --stdin is a path, byte for byte up to the line terminator)
+        oname = rng.choice(["other", "oth\udce9r-latin1", "oth\udce9r-latin1", "other ", "other\t"])
         dirs = ["proj", "proj/.cache", "proj/.cache/deep", "proj/build", "proj/build/obj", "proj/sub", "proj/sub/.priv", oname]
         for d in dirs:
             os.makedirs(os.path.join(top, d))
@@ -86,7 +87,7 @@ def nested_unreached_roots_check(ctx, n, prop):
         roots = ["proj"] + rng.shuffle(nested)[:1 + rng.below(3)]
         if hidden_files and rng.chance(1, 2):
             roots.append(os.path.relpath(rng.choice(hidden_files), top))
-        if rng.chance(1, 2):
+        if oname != "other" or rng.chance(1, 2):
             roots.append(oname)
         roots = rng.shuffle(roots)
         how = rng.below(3)
@@ -95,7 +96,7 @@ def nested_unreached_roots_check(ctx, n, prop):
         no_ignore = rng.chance(1, 5)
         opts = (["--hidden"] if hidden else []) + (["--no-ignore"] if no_ignore else []) + (["-L"] if follow else [])
         opts += rng.choice([[], ["--threads", "1"], ["--threads", "8"], ["--threads", "main:1"]])
-        stdin_mode = rng.chance(1, 3)
+        stdin_mode = rng.chance(1, 2)
         env0 = {"FCLONES_VERIF_DISK_KIND": "ssd", "HOME": home, "XDG_CONFIG_HOME": os.path.join(home, ".config")}
         if stdin_mode:
             rc, out, err = treegen.fclones(["group", "--stdin"] + opts + ["-f", "json"], cwd=top, env=env0,
